@@ -39,6 +39,20 @@ fn open_c10_bracket_before_tree() {
 }
 
 #[test]
+fn open_c10_optional_edge_text() {
+    // an optional leading text run: without it the following boundary becomes the root
+    for (expression, path, components) in [("<a:0,1>/b", "/b", 1usize), ("<a:0,2>/**/c", "/c", 1)] {
+        let glob = Glob::new(expression).unwrap();
+        assert!(glob.is_match(path));
+        let reported = lower_bound(expression).unwrap();
+        assert!(reported > components, "C10.optional-edge-text: {expression} reports >= {reported}, {path} has {components}");
+    }
+    // in the middle of an expression the optional run is harmless
+    assert!(Glob::new("x<a:0,1>/b").unwrap().is_match("x/b"));
+    assert_eq!(lower_bound("x<a:0,1>/b"), Some(2));
+}
+
+#[test]
 fn open_c15_max_below_pivot() {
     let root = std::env::temp_dir().join(format!("wax-witness-{}", std::process::id()));
     let _ = std::fs::remove_dir_all(&root);
